@@ -185,6 +185,9 @@ def lean_checker(modules, timeout=3000):
 def lean_driver(lines, timeout=1800):
     """Pipe op lines to the Lean driver, return its output lines."""
     inp = "\n".join(lines) + "\n"
+    ok, log = lean_build(["HypnoModel.Drv.All"])
+    if not ok:
+        raise RuntimeError("driver modules do not build: " + log[-1500:])
     rc, out = run(["lake", "env", "lean", "--run", "Driver.lean"], cwd=LEAN, inp=inp, timeout=timeout)
     if rc != 0:
         raise RuntimeError("Lean driver failed (rc=%d): %s" % (rc, out[-2000:]))
@@ -237,6 +240,7 @@ class Result:
         self.known_hit = []
         self.corr_failures = []  # correspondence disagreements with no implementation-level failing input
         self.traces = 0
+        self.gen_error = None
 
     # --- counting
     def case(self, key=None, nontrivial=False, sample=None):
